@@ -220,8 +220,22 @@ def do_VertexCover(ctx, rng, w, bad, call):
         bad("num_binary_variables-wrong", "n=%d for %d vertices" % (n, len(vv)))
     covers = [set(c) for r in range(len(vv) + 1) for c in itertools.combinations(vv, r) if all(u in c or v in c for u, v in edges)]
     best = min(len(c) for c in covers)
-    # decoding convention is the class's own (index -> vertex); the reference feasibility goes through convert_solution's
-    # documented meaning: bit i set <=> i-th vertex in sorted order is in the cover
+    # the decoding convention (index -> vertex) is the class's own: it is learnt from the decoding of the unit vectors, and
+    # everything else (other assignments, validity, ground states, costs) is judged through that map
+    learnt = []
+    for i_ in range(n):
+        e_ = [0] * n
+        e_[i_] = 1
+        d_ = call("convert_solution", p.convert_solution, e_)
+        if not isinstance(d_, set) or len(d_) != 1:
+            bad("convert_solution-wrong", "the single variable %d decodes to %r" % (i_, d_))
+            return
+        learnt.append(next(iter(d_)))
+    if len(learnt) == len(vv) and set(learnt) != set(vv):
+        bad("convert_solution-wrong", "the unit vectors decode to %r, the vertices are %r" % (learnt, vv))
+        return
+    if len(learnt) == len(vv):
+        vv = learnt
 
     def feas(xb):
         c = {vv[i] for i in range(n) if xb[i]}
